@@ -13,8 +13,10 @@ import (
 	"reflect"
 	"regexp"
 	"sort"
+	"strconv"
 	"strings"
 	"sync"
+	"time"
 
 	kmip "github.com/ovh/kmip-go"
 	"github.com/ovh/kmip-go/kmipserver"
@@ -246,9 +248,10 @@ func OasisMessages() [][]byte {
 			}
 			b = varRe.ReplaceAllFunc(b, func(m []byte) []byte {
 				if bytes.HasPrefix(m, []byte(`"$NOW`)) {
-					return []byte(`"2020-01-02T03:04:05+00:00"`)
+					off, _ := strconv.ParseInt(strings.Trim(string(m[5:]), `"`), 10, 64)
+					return []byte(`"` + time.Unix(1577934245+off, 0).UTC().Format(time.RFC3339) + `"`)
 				}
-				return []byte(`"1"`)
+				return []byte(`"DEADBEEFCAFE"`) // what the repository's own vector loader substitutes
 			})
 			for _, m := range msgRe.FindAll(b, -1) {
 				oasisMsgs = append(oasisMsgs, m)
